@@ -1,5 +1,6 @@
 import PdeVerif.Json
 import PdeVerif.Model.Expr
+import PdeVerif.Model.ExprIndex
 /-
 Driver of the expression model (C11; the AST reader/writer is shared with C10).
 Evaluates `PdeVerif.Ex.exprFunction` / `eval` / `diff` - the definitions the theorems of
@@ -36,6 +37,8 @@ partial def exprOfJson (j : Json) : Except String Expr := do
   | "heav1" => pure (.heav1 (← exprOfJson (← fld j "a")))
   | "heav2" => pure (.heav2 (← exprOfJson (← fld j "a")) (← exprOfJson (← fld j "h")))
   | "cmp" => pure (.cmp (← cmpOfString (← fldS j "op")) (← exprOfJson (← fld j "a")) (← exprOfJson (← fld j "b")))
+  -- `Piecewise((a, h), (b, True))`: the model's `select` (theorems `select_eval`, `select_cmp_eval`)
+  | "pw" => pure (select (← exprOfJson (← fld j "h")) (← exprOfJson (← fld j "a")) (← exprOfJson (← fld j "b")))
   | _ => throw s!"unknown node kind {k}"
 
 def node (k : String) (fs : List (String × Json)) : Json := Json.mkObj (("k", Json.str k) :: fs)
@@ -261,11 +264,113 @@ def evalReq (j : Json) : Except String Json := do
       throw "uninterpreted function or constant"
     pure (answer floatTab r (fun _ _ => true) jF)
 
+/-! ### indexing of array expressions (`TensorExpression.__getitem__`) -/
+
+def tenOfReq {K : Type} (r : Req K) : Ten Expr :=
+  match r.rank with
+  | 0 => .sc r.scalar
+  | 1 => .vec r.vec
+  | _ => .mat r.mat
+
+def tenToJson {α : Type} (f : α → Json) : Ten α → Json
+  | .sc a => f a
+  | .vec l => Json.arr (l.map f).toArray
+  | .mat m => Json.arr (m.map (fun row => Json.arr (row.map f).toArray)).toArray
+
+def optIntOfJson (j : Json) : Except String (Option Int) :=
+  match j with
+  | .null => pure none
+  | _ => do pure (some (← getI j))
+
+/-- {"at": i} | {"slice": [a|null, b|null]} -/
+def ixOfJson (j : Json) : Except String Ix :=
+  match fldOpt j "at" with
+  | some v => do pure (.at (← getI v))
+  | none => do
+    match ← fld j "slice" with
+    | .arr #[a, b] => pure (.slice (← optIntOfJson a) (← optIntOfJson b))
+    | _ => throw "bad slice"
+
+section
+variable {K : Type} [Add K] [Sub K] [Mul K] [Div K] [Neg K] [NatCast K] [IntCast K]
+
+/-- one index of one array expression: the model of `expr[index]` - its shape, whether it depends on each
+variable, its values `chainFunction` (definition of the theorems `chain_function_eval`, `chainFunction_single`,
+`index_function_eval`) at every point with
+the definedness of every component, and the values of `expr[index].differentiate(x)` -/
+def answerIndex (T : FunTab K) (r : Req K) (ok : Env K → Expr → Bool) (num : K → Json)
+    (chain : List (List Ix)) : Json :=
+  let T' := withUser T r.udefs
+  let t := tenOfReq r
+  let atPt (i : Nat) : Req K :=
+    { r with consts := r.consts ++ r.pconsts.filterMap (fun p => (p.2[i]?).map (fun v => (p.1, v))) }
+  match getChain (t.map (prepare r.sig r.repl)) chain with
+  | none => Json.mkObj [("ok", Json.bool false)]
+  | some t' =>
+    let pts := r.points.zipIdx
+    let vals := pts.map (fun (args, i) =>
+      let ri := atPt i
+      match chainFunction T' ri.sig ri.consts ri.repl t chain args with
+      | none => Json.str "rejected"
+      | some v => tenToJson num v)
+    let defd := pts.map (fun (args, i) =>
+      let ri := atPt i
+      tenToJson (fun e => Json.bool (ok (callEnv (varsSig ri.sig) ri.consts args) e)) t')
+    let dvals := r.dvars.map (fun x =>
+      Json.arr (pts.map (fun (args, i) =>
+        let ri := atPt i
+        match tensorFunction T' (varsSig ri.sig) ri.consts [] (t'.map (diff x)) args with
+        | none => Json.str "rejected"
+        | some v => tenToJson num v)).toArray)
+    let ddefd := r.dvars.map (fun x =>
+      Json.arr (pts.map (fun (args, i) =>
+        let ri := atPt i
+        tenToJson (fun e => Json.bool (ok (callEnv (varsSig ri.sig) ri.consts args) (diff x e) &&
+          ok (callEnv (varsSig ri.sig) ri.consts args) e)) t')).toArray)
+    let dexprs := r.dvars.map (fun x => tenToJson (fun e => exprToJson (diff x e)) t')
+    Json.mkObj [("ok", Json.bool true), ("rank", toJson t'.rank), ("shape", toJson t'.shape),
+      ("depends", Json.arr ((sigVars r.sig).map (fun v =>
+        Json.bool (dependsOn (varsSig r.sig) [] t' v))).toArray),
+      ("vals", Json.arr vals.toArray), ("defined", Json.arr defd.toArray),
+      ("dvals", Json.arr dvals.toArray), ("ddefined", Json.arr ddefd.toArray),
+      ("dexprs", Json.arr dexprs.toArray)]
+
+def answerIndices (T : FunTab K) (r : Req K) (ok : Env K → Expr → Bool) (num : K → Json)
+    (ixs : List (List (List Ix))) : Json :=
+  let t := tenOfReq r
+  Json.mkObj [("rank", toJson t.rank), ("shape", toJson t.shape),
+    ("depends", Json.arr ((sigVars r.sig).map (fun v =>
+      Json.bool (dependsOn r.sig r.repl t v))).toArray),
+    ("indices", Json.arr (ixs.map (answerIndex T r ok num)).toArray)]
+
+end
+
+/-- the request of `c11.eval` plus "indices": a list of CHAINS `expr[ix1][ix2]..`, each a list of index tuples
+[{"at":i}|{"slice":[a,b]}, ..] -/
+def indexReq (j : Json) : Except String Json := do
+  let mode ← fldS j "mode"
+  let ixs ← getL (getL (getL ixOfJson)) (← fld j "indices")
+  if mode == "Q" then
+    let r ← reqOfJson getQ j
+    let u := (r.udefs.filter (fun d => rationalFragment [] d.body)).map (·.name)
+    if !(mainExprs r).all (rationalFragment u) then throw "not in the rational fragment"
+    let T : FunTab Rat := algTab
+    let dT := withUser T r.udefs
+    pure (answerIndices T r (fun env e => defined dT env e) jQ ixs)
+  else
+    let r ← reqOfJson getF j
+    let u1 := (r.udefs.filter (fun d => d.params.length == 1)).map (·.name)
+    let u2 := (r.udefs.filter (fun d => d.params.length == 2)).map (·.name)
+    if !(mainExprs r ++ r.udefs.map (·.body)).all (knownFuns u1 u2) then
+      throw "uninterpreted function or constant"
+    pure (answerIndices floatTab r (fun _ _ => true) jF ixs)
+
 /-- {"expr":..,"x":".."} -> AST of `diff x expr` -/
 def diffReq (j : Json) : Except String Json := do
   let e ← exprOfJson (← fld j "expr")
   let x ← fldS j "x"
   pure (exprToJson (diff x e))
 
-def handlers : List (String × Handler) := [("c11.eval", evalReq), ("c11.diff", diffReq)]
+def handlers : List (String × Handler) :=
+  [("c11.eval", evalReq), ("c11.diff", diffReq), ("c11.index", indexReq)]
 end PdeVerif.Drv.C11
